@@ -426,6 +426,30 @@ func registerNatives(in *Interp) {
 	n["errors.Is"] = func(in *Interp, fn *ssa.Function, args []Value) Value {
 		return in.tb.Bool(in.errorIs(args[0].(IfaceV), args[1].(IfaceV)))
 	}
+	pkgWrap := func(in *Interp, fn *ssa.Function, args []Value) Value {
+		cause := args[0].(IfaceV)
+		if cause.T == nil {
+			return IfaceV{}
+		}
+		return in.newError("wrapped", cause)
+	}
+	n["github.com/pkg/errors.Wrap"] = pkgWrap
+	n["github.com/pkg/errors.Wrapf"] = pkgWrap
+	n["github.com/pkg/errors.WithStack"] = pkgWrap
+	n["github.com/pkg/errors.WithMessage"] = pkgWrap
+	n["github.com/pkg/errors.New"] = func(in *Interp, fn *ssa.Function, args []Value) Value { return in.newError("pkg error") }
+	n["github.com/pkg/errors.Errorf"] = func(in *Interp, fn *ssa.Function, args []Value) Value { return in.newError("pkg error") }
+	n["github.com/pkg/errors.Cause"] = func(in *Interp, fn *ssa.Function, args []Value) Value {
+		e := args[0].(IfaceV)
+		for i := 0; i < 8; i++ {
+			mo, ok := e.V.(*ModelObj)
+			if !ok || mo.Kind != "error" || len(mo.Data.(*errData).wraps) == 0 {
+				break
+			}
+			e = mo.Data.(*errData).wraps[0]
+		}
+		return e
+	}
 	n["errors.As"] = func(in *Interp, fn *ssa.Function, args []Value) Value {
 		e := args[0].(IfaceV)
 		tgt := args[1].(IfaceV)
